@@ -151,7 +151,8 @@ class Build:
             rc, o, e, s, to = sh(cmd, timeout=300)
             if rc != 0:
                 self.ok = False
-                self.err = 'clang failed: %s\n%s' % (' '.join(cmd), e[-3000:])
+                errs = [l for l in e.splitlines() if 'error' in l][:6]
+                self.err = 'clang failed on %s: %s || cmd: %s' % (os.path.basename(src), ' | '.join(errs)[:1500], ' '.join(cmd))
                 return self
             rc, o, e, s, to = sh([sys.executable, os.path.join(ENGINE, 'll2c.py'), ll, '--prefix', pre, '-o', c] + list(getattr(self.fam, 'll2c_flags', [])), timeout=300)
             if rc != 0:
@@ -253,7 +254,7 @@ def run_query(b, q, mem_gb):
     r = QueryResult(q)
     if not b.ok:
         r.status = 'error'
-        r.detail = 'build failed: ' + b.err
+        r.detail = 'build failed (see BUILD-ERROR): ' + b.err[:160]
         return r
     if q['entry'] not in b.entries:
         r.status = 'error'
@@ -288,7 +289,7 @@ def run_query(b, q, mem_gb):
             except OSError:
                 pass
             first = (o.strip().splitlines() or [''])[0].strip()
-            if to or first not in ('sat', 'unsat') or (first == 'unsat' and re.search(r'\(error(?! "Cannot get value)', o)):
+            if to or first not in ('sat', 'unsat') or (first == 'unsat' and re.search(r'\(error(?! "Cannot get value)(?! "line \d+ column \d+: model is not available)', o)):
                 r.status = 'timeout'; r.solver = sv
                 r.detail = 'no verdict from %s (%s)' % (sv, 'timeout' if to else (first or e[-100:]))
                 continue
@@ -542,6 +543,8 @@ def check(prop, tier, families=None, only_entry=None, verbose=False):
                 continue
             if q.get('confirm_only'):   # configuration that lies wholly inside an open known-finding region: only its confirm query runs
                 continue
+            if q.get('kf_only') and q['kf_only'] in open_kf:
+                continue   # same, decided by the runner: the query runs normally again once the finding is no longer listed open
             nofunc = bool(q.get('nofunc', False))
             bb = get_build(fam, q.get('cfg', {}), bool(q.get('ub', False)), kfmain, nofunc)
             qlist.append((fam, q, bb))
